@@ -733,7 +733,11 @@ Fixpoint interruptor (fuel : nat) (s : st) (b i : nat) : st * lres :=
 (* the `except Exception` clause around the interruptor body *)
 Definition interruptor_wrap (s : st) (r : lres) : st * lres :=
   match r with
-  | LDone (RExc e) => if is_exception e then (adderr s (LEOther e), LDone (RVal 0)) else (s, r)
+  | LDone (RExc e) =>
+      (* call_exception_handler is given "task": current_task(), whose context is already
+         entered, so asyncio only logs "Unhandled error in exception handler"; the loop's
+         handler is never invoked *)
+      if is_exception e then (s, LDone (RVal 0)) else (s, r)
   | _ => (s, r)
   end.
 
